@@ -85,24 +85,30 @@ def generate_inproc(req_bytes):
     """-> dict(ok=True, response=bytes) | dict(ok=False, etype, emsg, tb)"""
     _setup()
     try:
-        from google.protobuf.compiler import plugin_pb2
+        import io
         from gapic import generator
-        from gapic.schema import api
-        from gapic.utils import Options
+        from gapic.cli import generate as cli
         assert os.path.realpath(generator.__file__).startswith(os.path.realpath(REPO)), \
             f'gapic imported from {generator.__file__}, not {REPO}'
-        req = plugin_pb2.CodeGeneratorRequest.FromString(req_bytes)
-        opts = Options.build(req.parameter)
-        package = os.path.commonprefix(
-            [p.package for p in req.proto_file if p.name in req.file_to_generate]
-        ).rstrip('.')
-        api_schema = api.API.build(req.proto_file, opts=opts, package=package)
-        key = tuple(opts.templates)
-        g = _generators.get(key)
-        if g is None:
-            g = _generators[key] = generator.Generator(opts)
-        res = g.get_response(api_schema, opts)
-        return dict(ok=True, response=res.SerializeToString())
+        # The real entry point (gapic/cli/generate.py: option parsing, target-package computation, API.build, rendering)
+        # runs in this process; only the construction of Generator objects -- a jinja environment whose compiled templates
+        # are worth keeping -- is memoised per (template path, sample configs).
+        if not getattr(generator.Generator, '_verif_memo', False):
+            real = generator.Generator
+
+            def memo(opts, _real=real):
+                key = (tuple(opts.templates), tuple(opts.sample_configs))
+                g = _generators.get(key)
+                if g is None:
+                    g = _generators[key] = _real(opts)
+                return g
+            memo._verif_memo = True
+            memo.__wrapped__ = real
+            generator.Generator = memo
+            cli.generator.Generator = memo
+        out = io.BytesIO()
+        cli.generate.callback(request=io.BytesIO(req_bytes), output=out)
+        return dict(ok=True, response=out.getvalue())
     except BaseException as e:  # RecursionError, SystemExit from click, ...
         if isinstance(e, KeyboardInterrupt):
             raise
